@@ -43,8 +43,9 @@ ASSUMPTIONS = [
     'decimal strings are exact for the generated values (dyadic rationals with <= 7 fractional digits); oblique directions '
     'are compared with tolerance 1e-6 (support only)',
     'spacing = norm of an affine column is modelled as the spacing factor of direction x spacing (real-number fact)',
-    'tolerances of get_volume_positions (rtol 0.01, perpendicularity 1e-6) are modelled exactly over Q and only probed '
-    'with exact multiples',
+    'tolerances of get_volume_positions (rtol 0.01, perpendicularity 1e-6) are modelled exactly over Q; the object streams '
+    'draw exact multiples, the helper stream also near-multiples (within 0.4 % of a spacing, so that differences stay clear '
+    'of the 1 % boundary where exact and floating-point arithmetic may disagree) with and without a hint',
     'pixel encoding / decoding of frames (C01) and segment selection (C02) are taken from the stored frames as decoded '
     'by the library itself; this property only places them',
     'planes of one object lie at pairwise different distances along the normal (coincident planes are refused by the '
@@ -2214,7 +2215,11 @@ def run_volume_positions_helper(ctx, reqs, pending):
     duplicates, hints that are negative / zero / wrong, both branches, duplicates allowed or not."""
     from highdicom.spatial import get_volume_positions
     iops = [[1, 0, 0, 0, 1, 0], [0, 1, 0, 0, 0, -1], [0, 0, 1, 1, 0, 0], [0, -1, 0, -1, 0, 0]]
-    fixed = [([(0, 0, -1), (0, 0, 0), (5, 0, 0)], iops[0], 1.0, True, True)]         # witness of the audit (C03-5)
+    fixed = [([(0, 0, -1), (0, 0, 0), (5, 0, 0)], iops[0], 1.0, True, True),         # witness of the audit (C03-5)
+             ([(0, 0, 0), (0, 0, 1), (0, 0, 100.9)], iops[0], None, True, True),     # audit 2 (C03-1): estimate refined over the extent
+             ([(0, 0, 0), (0, 0, 1), (0, 0, 2.016)], iops[0], None, True, True),
+             ([(0, 0, 0), (0, 0, 1), (0, 0, 2.5)], iops[0], None, True, True),
+             ([(0, 0, 0), (0, 0, 1), (3, 0, 1.004)], iops[0], 1.0, True, True)]      # two positions at one multiple
     for idx in range(ctx.n(300, 3000) + len(fixed)):
         if idx < len(fixed):
             pos, iop, hint, am, ad = fixed[idx]
@@ -2235,6 +2240,21 @@ def run_volume_positions_helper(ctx, reqs, pending):
                 pos.append(pos[0])
             hint = r.choice([None, None, 1.0, 0.5, 2.0, -1.0, 0.0])
             am, ad = r.random() < 0.6, r.random() < 0.7
+            rn = ctx.rng('vpnear', idx)
+            if rn.random() < 0.3:
+                # near-multiples of a spacing (audit 2): planes within 0.4 % of a spacing of whole multiples far apart (the estimate
+                # from the smallest gap must be refined over the extent), sometimes one plane clearly off the grid
+                sp_ = rn.choice([0.5, 1.0, 2.5, 0.3])
+                ks = sorted(rn.sample(range(0, rn.choice([6, 40, 120])), rn.randint(2, 6)))
+                # (offsets are relative to the lowest plane in the code: differences stay clear of the 1 % boundary)
+                offs = [rn.choice([0.0, 0.002, -0.002, 0.003, -0.003, 0.004, -0.004]) for _ in ks]
+                if rn.random() < 0.25:
+                    offs[rn.randrange(len(ks))] = rn.choice([0.02, -0.03, 0.2, 0.45])
+                order_ = list(range(len(ks)))
+                rn.shuffle(order_)
+                pos = [tuple(float(base[j] + (ks[i] + offs[i]) * sp_ * nrm[j]) for j in range(3)) for i in order_]
+                hint = rn.choice([None, None, None, sp_])
+                am, ad = True, True
         try:
             sp, vp = get_volume_positions(pos, iop, allow_missing_positions=am, allow_duplicate_positions=ad, spacing_hint=hint)
             impl = ('ok', None if vp is None else {'spacing': rstr(fr(sp)), 'positions': [int(x) for x in vp]})
@@ -2249,11 +2269,12 @@ def run_volume_positions_helper(ctx, reqs, pending):
             ctx.case(stream='helper/volume_positions', outcome='tie-at-extreme-not-compared')
             continue
         ctx.case(stream='helper/volume_positions', outcome=('none' if impl == ('ok', None) else impl[0]),
-                 allow_missing=am, hint='none' if hint is None else ('neg' if hint < 0 else 'zero' if hint == 0 else 'pos'))
+                 allow_missing=am, hint='none' if hint is None else ('neg' if hint < 0 else 'zero' if hint == 0 else 'pos'),
+                 near_multiples=bool(idx >= len(fixed) and ctx.rng('vpnear', idx).random() < 0.3))
         reqs.append(('volumePositions', {'pos': [[rstr(fr(x)) for x in p_] for p_ in pos], 'iop': [rstr(F(x)) for x in iop],
                                          'hint': None if hint is None else rstr(fr(hint)), 'allow_missing': am, 'allow_dup': ad}))
         pending.append(({'helper': 'get_volume_positions', 'positions': [list(p_) for p_ in pos], 'iop': iop, 'hint': hint,
-                         'allow_missing': am, 'allow_duplicates': ad, 'layer': 'L2'}, impl))
+                         'allow_missing': am, 'allow_duplicates': ad, 'layer': 'L2', 'spacing_tol': True}, impl))
 
 
 def run_slice_requests_exhaustive(ctx, reqs, pending):
@@ -2385,7 +2406,10 @@ def _compare(ctx, pending, answers):
             a, b = impl[1], model[1]
             if case.get('model_drop') and isinstance(b, list):
                 b = [{k: v for k, v in it.items() if k not in case['model_drop']} if isinstance(it, dict) else it for it in b]
-            if case.get('tol'):
+            if case.get('spacing_tol') and isinstance(a, dict) and isinstance(b, dict):
+                # the model divides exactly, the code in floating point: positions must be equal, the spacing within 1e-9
+                same = a.get('positions') == b.get('positions') and close(F(a['spacing']), F(b['spacing']), F(1, 10 ** 9))
+            elif case.get('tol'):
                 same = all(close(F(x), F(y), F(1, 10 ** 9)) for x, y in zip(a, b)) and len(a) == len(b)
             elif isinstance(a, dict) and isinstance(b, dict):
                 same = all(b.get(k) == v for k, v in a.items())
@@ -2393,6 +2417,9 @@ def _compare(ctx, pending, answers):
                 same = a == b
             if not same:
                 ctx.disagree(layer, case, impl, model, 'value: ' + str(case.get('what', case.get('helper', ''))))
+                import os as _os
+                if layer == 'L2' and _os.environ.get('HD_C03_L2LOG'):         # L2 records are not kept in the evidence: debugging aid
+                    open(_os.environ['HD_C03_L2LOG'], 'a').write(repr((case, impl, model)) + '\n')
 
 
 def run(ctx):
